@@ -196,10 +196,14 @@ def run(ctx):
     # ---- R18.2 dispatch symmetry
     BACKENDS = ("serde_json", "serde_yaml", "toml")
     table = {}
+    from analysis.inline import inlined as _inl
+    _ser_helper = lambda g_, t_: g_.id.startswith("layout21utils::ser::") and g_.kind != "Closure" and not g_.derived and not re.search(
+        r"ser::(SerializationFormat::(to_string|from_str|save|open)|save|open|SerdeFile::(save|open))$|convert::From<", g_.short)
     for f in F.fns.values():
-        if not f.id.startswith("layout21utils::ser::"):
+        if not f.id.startswith("layout21utils::ser::") or not f.body:
             continue
-        b = Body(f)
+        # a back-end call moved into a small private helper (`toml_from_reader(&mut rdr)`) is read in place
+        b = Body(_inl(F, f, pred=_ser_helper, depth=2, max_blocks=40))
         for bi, blk in enumerate(b.blocks):
             t = blk["term"]
             if t["k"] != "switch" or bi not in b.reachable:
@@ -243,7 +247,7 @@ def run(ctx):
     n_entry = 0
     for f in entry:
         n_entry += 1
-        b = Body(f)
+        b = Body(_inl(F, f, pred=_ser_helper, depth=2, max_blocks=40))
         bad = []
         for bi, t in b.calls():
             cid = callee_id(t) or ""
